@@ -479,7 +479,10 @@ def b_eig(ctx):
                     ctx.fail('C17:mises-nan', f'{name} is NaN for the rotated tensor {list(map(float, tb))} (original {t.tolist()})',
                              f"from pylife.stress import equistress\nv = equistress.{name}(*{list(map(float, tb))!r})\nprint(v)\nassert v == v, 'NaN'")
                     continue
-                if abs(v0 - v1) > 1e-8 * scale:
+                # mises is the square root of a cancelling radicand: near zero its absolute rounding error is ~ sqrt(eps) * scale,
+                # so compare the squares there (a first version demanded 1e-8 * scale of the root itself: false alarm for seed 1)
+                differs = abs(v0 * v0 - v1 * v1) > 1e-10 * scale * scale if 'mises' in name else abs(v0 - v1) > 1e-8 * scale
+                if differs:
                     # sign indicators exactly at zero flip under rounding: not a violation of the real-number statement
                     if name.startswith('signed') and (abs(I1) < 1e-9 * scale or abs(w[2] + w[0]) < 1e-9 * scale) and abs(abs(v0) - abs(v1)) <= 1e-8 * scale:
                         ctx.count('sign-indicator-zero-under-rounding')
